@@ -105,9 +105,11 @@ Proof. exact get_frame. Qed.
 Print Assumptions C08_get_frame.
 
 (* REFINEMENT clause "a client never returns a result computed from input content different from the request":
-   the request is the file its path names FOR THE CALLER at request time.
-   REFUTED (1) by the path-keyed cache, for the pinned and the current client alike: write c0, request, write c1,
-   request again on the same caching client -> the run of c0 comes back although the file holds c1. *)
+   the request is the file its path names FOR THE CALLER at request time.  The current clients open the request
+   path in the caller's directory ([caller_opendir]; repaired by fa4a753).
+   REFUTED by the path-keyed cache, for the pinned and the current client alike:
+   (1) write c0, request, write c1, request again on the same caching client -> the run of c0 comes back although
+       the file holds c1; *)
 Theorem C08_cache_refines_run_refuted :
   forall fixed, exists e p r h,
     In e (ptrace (plain_cfg [0; 1]) fixed (DUser 0) [] [NewClient true; Write 0 0; Get 0 0; Write 0 1; Get 0 0])
@@ -116,44 +118,67 @@ Theorem C08_cache_refines_run_refuted :
 Proof. exact cache_refines_refuted. Qed.
 Print Assumptions C08_cache_refines_run_refuted.
 
-(* REFUTED (2) by relative request paths, even with caching off: GeophiresInputParameters keeps from_file_path as
-   given and main() chdirs to the source directory BEFORE opening it, so the name is looked up there: the caller in
-   directory 0 asks for name 100 (its file 60, content 0) and gets the run of the source directory's file 90
-   (content 1) - or a failure when no such file exists there. *)
+(* (2) the key is the path AS GIVEN: the same RELATIVE name (100 = file 60 in directory 0, file 61 in directory 1)
+       requested from two directories through one caching client is served from the cache in the second one. *)
+Theorem C08_cache_relative_shared_refuted :
+  forall fixed, exists e r h,
+    In e (ptrace rel2_cfg fixed (DUser 0) [] [NewClient true; Write 60 0; Write 61 1; Get 0 100; Chdir (DUser 1); Get 0 100])
+    /\ eop e = Get 0 100 /\ eout e = Returned r h /\ cwd (before e) = DUser 1
+    /\ expected nat nat (crun [0; 1]) (files (before e)) (cresolve (g_rt rel2_cfg) (cwd (before e)) 100) = Some 1
+    /\ r = 0.
+Proof. exact cache_relative_shared_refuted. Qed.
+Print Assumptions C08_cache_relative_shared_refuted.
+
+(* The clients of the PINNED tree (path passed on as given, main() chdirs to the program directory before opening it:
+   [pinned_opendir]) refuted the clause even with caching off: the caller in directory 0 asks for name 100 (its
+   file 60, content 0) and gets the run of the source directory's file 90 (content 1) - or a failure when no such
+   file exists there. *)
 Theorem C08_relative_request_refuted :
   forall fixed, exists e r h,
-    In e (ptrace rel_cfg fixed (DUser 0) [] [NewClient false; Write 60 0; Get 0 100])
+    In e (ptrace_with pinned_opendir rel_cfg fixed (DUser 0) [] [NewClient false; Write 60 0; Get 0 100])
     /\ eop e = Get 0 100 /\ eout e = Returned r h
     /\ expected nat nat (crun [0; 1]) (files (before e)) (cresolve (g_rt rel_cfg) (cwd (before e)) 100) = Some 0
     /\ r = 1.
 Proof. exact relative_request_refuted. Qed.
 Print Assumptions C08_relative_request_refuted.
 
-(* ... and PROVED under the hypotheses the code needs: every request path names the same file for the caller and
-   for the program (true of absolute paths: C08_absolute_paths_resolve_same), hash is injective on the requested
-   paths [ps], and no file is written or deleted while a caching client holds a result under the key of a path
-   naming it.  Then, for every history and both clients, every result returned (by a GEOPHIRES client, a HIP-RA
-   client or the command line) is the run of the content the requested file has at request time. *)
+(* PROVED for the current clients under the hypotheses the path-keyed cache needs: hash is injective on the requested
+   paths [ps], they name the same file from every directory (true of absolute paths), and no file is written or
+   deleted while a caching client holds a result under the key of a path naming it.  Then, for every history, every
+   result returned (by a GEOPHIRES client, a HIP-RA client or the command line) is the run of the content the
+   requested file has at request time. *)
 Theorem C08_cache_refines_run_partial :
   forall (C R : Type) (run : C -> option R) (hash : nat -> Z) (resolve : dir -> nat -> nat) (runh : nat -> C -> option R) (ps : list nat) (fixed : bool),
   (forall p q, In p ps -> In q ps -> hash p = hash q -> p = q) ->
+  (forall p, In p ps -> forall d, resolve d p = resolve DSrc p) ->
   forall (ops : list (op C)) (d : dir) (a : list arg) (f : fs C),
   (forall ci p, In (Get ci p) ops -> In p ps) ->
   Forall (fun e => forall w, wpath C (eop e) = Some w -> forall p, resolve DSrc p = w ->
                    forall cl, In cl (clients (before e)) -> caching cl = true ->
                    cache_lookup Z.eqb (hash p) (cache cl) = None)
-         (trace C R run hash resolve code_opendir runh Z Z.eqb (path_key hash) fixed (init d a f) ops) ->
-  Forall (fun e => (forall ci p, eop e = Get ci p -> resolve (cwd (before e)) p = resolve DSrc p)
-                   /\ (forall k p, eop e = HipGet k p -> resolve (cwd (before e)) p = resolve (DPkg k) p))
-         (trace C R run hash resolve code_opendir runh Z Z.eqb (path_key hash) fixed (init d a f) ops) ->
+         (trace C R run hash resolve caller_opendir runh Z Z.eqb (path_key hash) fixed (init d a f) ops) ->
   Forall (fun e => forall orc p r h, request C R run runh (eop e) = Some (orc, p) -> eout e = Returned r h ->
                    expected_with C R orc (files (before e)) (resolve (cwd (before e)) p) = Some r)
-         (trace C R run hash resolve code_opendir runh Z Z.eqb (path_key hash) fixed (init d a f) ops).
+         (trace C R run hash resolve caller_opendir runh Z Z.eqb (path_key hash) fixed (init d a f) ops).
 Proof. exact trace_refines_init. Qed.
 Print Assumptions C08_cache_refines_run_partial.
 
-(* with caching off the clause needs only the path hypothesis: any hash, files rewritten at will *)
+(* with caching off the clause holds for the current clients with NO hypothesis: any hash, any paths (relative
+   ones from changing directories included), files rewritten at will *)
 Theorem C08_nocache_refines_run :
+  forall (C R : Type) (run : C -> option R) (hash : nat -> Z) (resolve : dir -> nat -> nat) (runh : nat -> C -> option R)
+         (K : Type) (keq : K -> K -> bool) (keyof : nat -> option C -> K) (fixed : bool) (ops : list (op C)) (st : state C R K),
+  (forall cl, In cl (clients st) -> caching cl = false) ->
+  (forall b, In (NewClient b) ops -> b = false) ->
+  Forall (fun e => forall orc p r h, request C R run runh (eop e) = Some (orc, p) -> eout e = Returned r h ->
+                   expected_with C R orc (files (before e)) (resolve (cwd (before e)) p) = Some r)
+         (trace C R run hash resolve caller_opendir runh K keq keyof fixed st ops).
+Proof. exact trace_refines_nocache_current. Qed.
+Print Assumptions C08_nocache_refines_run.
+
+(* the same with the clients of the pinned tree, or any other way of opening the path ([opendir] arbitrary), needs the
+   path hypothesis "the request path names the same file for the caller and for the program" ... *)
+Theorem C08_nocache_refines_run_any_opendir :
   forall (C R : Type) (run : C -> option R) (hash : nat -> Z) (resolve : dir -> nat -> nat) (opendir : dir -> dir -> dir)
          (runh : nat -> C -> option R)
          (K : Type) (keq : K -> K -> bool) (keyof : nat -> option C -> K) (fixed : bool) (ops : list (op C)) (st : state C R K),
@@ -166,9 +191,9 @@ Theorem C08_nocache_refines_run :
                    expected_with C R orc (files (before e)) (resolve (cwd (before e)) p) = Some r)
          (trace C R run hash resolve opendir runh K keq keyof fixed st ops).
 Proof. exact trace_refines_nocache. Qed.
-Print Assumptions C08_nocache_refines_run.
+Print Assumptions C08_nocache_refines_run_any_opendir.
 
-(* absolute paths (resolve d p = p) satisfy the path hypothesis in every history *)
+(* ... which absolute paths satisfy in every history, whatever the clients do *)
 Theorem C08_absolute_paths_resolve_same :
   forall (C R : Type) (run : C -> option R) (hash : nat -> Z) (resolve : dir -> nat -> nat) (opendir : dir -> dir -> dir)
          (runh : nat -> C -> option R)
@@ -180,8 +205,7 @@ Theorem C08_absolute_paths_resolve_same :
 Proof. exact absolute_resolves_same. Qed.
 Print Assumptions C08_absolute_paths_resolve_same.
 
-(* THE REPAIR of the relative-path defect: opening the request path against the CALLER's directory (handing main()
-   a path made absolute at request time) satisfies the path hypothesis in every history, for any paths *)
+(* ... and which opening the path in the caller's directory (the repair fa4a753) satisfies for any paths *)
 Theorem C08_caller_dir_resolves_same :
   forall (C R : Type) (run : C -> option R) (hash : nat -> Z) (resolve : dir -> nat -> nat) (opendir : dir -> dir -> dir)
          (runh : nat -> C -> option R)
@@ -194,35 +218,28 @@ Proof. exact caller_dir_resolves_same. Qed.
 Print Assumptions C08_caller_dir_resolves_same.
 
 (* THE REPAIR of the cache: a key that determines the run - e.g. the path hash TOGETHER WITH the content of the
-   file at request time - satisfies the clause for every history, with files rewritten at will and any hash *)
+   file at request time - satisfies the clause for every history of the current clients with no further hypothesis:
+   files rewritten at will, any hash, relative paths from changing directories *)
 Theorem C08_sound_key_refines_run :
-  forall (C R : Type) (run : C -> option R) (hash : nat -> Z) (resolve : dir -> nat -> nat) (opendir : dir -> dir -> dir)
-         (runh : nat -> C -> option R)
+  forall (C R : Type) (run : C -> option R) (hash : nat -> Z) (resolve : dir -> nat -> nat) (runh : nat -> C -> option R)
          (K : Type) (keq : K -> K -> bool) (keyof : nat -> option C -> K) (fixed : bool),
   (forall p c p' c', keq (keyof p c) (keyof p' c') = true ->
                      match c with Some x => run x | None => None end = match c' with Some x => run x | None => None end) ->
   forall (ops : list (op C)) (d : dir) (a : list arg) (f : fs C),
-  Forall (fun e => (forall ci p, eop e = Get ci p -> resolve (cwd (before e)) p = resolve (opendir DSrc (cwd (before e))) p)
-                   /\ (forall k p, eop e = HipGet k p -> resolve (cwd (before e)) p = resolve (opendir (DPkg k) (cwd (before e))) p))
-         (trace C R run hash resolve opendir runh K keq keyof fixed (init d a f) ops) ->
   Forall (fun e => forall orc p r h, request C R run runh (eop e) = Some (orc, p) -> eout e = Returned r h ->
                    expected_with C R orc (files (before e)) (resolve (cwd (before e)) p) = Some r)
-         (trace C R run hash resolve opendir runh K keq keyof fixed (init d a f) ops).
-Proof. exact trace_refines_sound_key_init. Qed.
+         (trace C R run hash resolve caller_opendir runh K keq keyof fixed (init d a f) ops).
+Proof. exact trace_refines_sound_key_current. Qed.
 Print Assumptions C08_sound_key_refines_run.
 
 Theorem C08_content_key_refines_run :
-  forall (C R : Type) (run : C -> option R) (hash : nat -> Z) (resolve : dir -> nat -> nat) (opendir : dir -> dir -> dir)
-         (runh : nat -> C -> option R) (ceq : C -> C -> bool) (fixed : bool),
+  forall (C R : Type) (run : C -> option R) (hash : nat -> Z) (resolve : dir -> nat -> nat) (runh : nat -> C -> option R) (ceq : C -> C -> bool) (fixed : bool),
   (forall a b, ceq a b = true -> a = b) ->
   forall (ops : list (op C)) (d : dir) (a : list arg) (f : fs C),
-  Forall (fun e => (forall ci p, eop e = Get ci p -> resolve (cwd (before e)) p = resolve (opendir DSrc (cwd (before e))) p)
-                   /\ (forall k p, eop e = HipGet k p -> resolve (cwd (before e)) p = resolve (opendir (DPkg k) (cwd (before e))) p))
-         (trace C R run hash resolve opendir runh (Z * option C) (content_keq ceq) (content_key hash) fixed (init d a f) ops) ->
   Forall (fun e => forall orc p r h, request C R run runh (eop e) = Some (orc, p) -> eout e = Returned r h ->
                    expected_with C R orc (files (before e)) (resolve (cwd (before e)) p) = Some r)
-         (trace C R run hash resolve opendir runh (Z * option C) (content_keq ceq) (content_key hash) fixed (init d a f) ops).
-Proof. exact trace_refines_content_key. Qed.
+         (trace C R run hash resolve caller_opendir runh (Z * option C) (content_keq ceq) (content_key hash) fixed (init d a f) ops).
+Proof. exact trace_refines_content_key_caller. Qed.
 Print Assumptions C08_content_key_refines_run.
 
 (* PURE FUNCTION OF THE INPUT: two requests to the same program, anywhere in any two safe histories (different
@@ -232,7 +249,7 @@ Theorem C08_result_function_of_content :
   forall (C R : Type) (run : C -> option R) (hash : nat -> Z) (resolve : dir -> nat -> nat) (runh : nat -> C -> option R) fixed1 fixed2 ps1 ps2 (st1 st2 : state C R Z) ops1 ops2
          e1 e2 orc p1 p2 r1 r2 h1 h2,
   safe_history C R run hash resolve runh fixed1 ps1 st1 ops1 -> safe_history C R run hash resolve runh fixed2 ps2 st2 ops2 ->
-  In e1 (trace C R run hash resolve code_opendir runh Z Z.eqb (path_key hash) fixed1 st1 ops1) -> In e2 (trace C R run hash resolve code_opendir runh Z Z.eqb (path_key hash) fixed2 st2 ops2) ->
+  In e1 (trace C R run hash resolve caller_opendir runh Z Z.eqb (path_key hash) fixed1 st1 ops1) -> In e2 (trace C R run hash resolve caller_opendir runh Z Z.eqb (path_key hash) fixed2 st2 ops2) ->
   request C R run runh (eop e1) = Some (orc, p1) -> request C R run runh (eop e2) = Some (orc, p2) ->
   eout e1 = Returned r1 h1 -> eout e2 = Returned r2 h2 ->
   fs_lookup (resolve (cwd (before e1)) p1) (files (before e1))
@@ -323,8 +340,7 @@ Example C08_refines_example :
   /\ Forall (fun e => forall w, wpath nat (eop e) = Some w -> forall p, cresolve [] DSrc p = w ->
                       forall cl, In cl (clients (before e)) -> caching cl = true ->
                       cache_lookup Z.eqb (chash p) (cache cl) = None) t
-  /\ Forall (fun e => (forall ci p, eop e = Get ci p -> cresolve [] (cwd (before e)) p = cresolve [] DSrc p)
-                      /\ (forall k p, eop e = HipGet k p -> cresolve [] (cwd (before e)) p = cresolve [] (DPkg k) p)) t
+  /\ (forall p, In p [0; 1] -> forall d, cresolve [] d p = cresolve [] DSrc p)
   /\ map (@eout nat nat Z) t = [Done; Done; Done; Returned 1 false; Done; Done; Returned 0 false; Returned 1 true].
 Proof.
   simpl. split; [|split; [|split; [|split]]].
@@ -333,19 +349,21 @@ Proof.
   - vm_compute. repeat (apply Forall_cons; [|]); try apply Forall_nil; intros w H; try discriminate H;
       inversion H; subst; intros p Hp; subst; intros cl Hcl;
       repeat (destruct Hcl as [Hcl|Hcl]; [subst cl; intros _; reflexivity|]); destruct Hcl.
-  - apply (absolute_resolves_same nat nat (crun [0; 1]) chash (cresolve []) code_opendir (crunh []) Z Z.eqb (path_key chash) true).
-    reflexivity.
+  - reflexivity.
   - vm_compute. reflexivity.
 Qed.
 
-(* a relative name that the caller and the program resolve to the same file (the caller sits in the source
-   directory) satisfies the path hypothesis; from another directory it does not (C08_relative_request_refuted) *)
+(* relative names with the current clients and caching off: each request runs the file the name has in the caller's
+   directory of the moment (source directory: file 90 = content 1; directory 0: file 60 = content 0) *)
 Example C08_relative_example :
   map (@eout nat nat Z) (ptrace rel_cfg true DSrc [] [NewClient false; Get 0 100; Chdir (DUser 0); Write 60 0; Get 0 100])
-  = [Done; Returned 1 false; Done; Done; Returned 1 false].
-Proof. vm_compute. reflexivity. Qed.
+  = [Done; Returned 1 false; Done; Done; Returned 0 false]
+  /\ map (@eout nat nat Z) (ptrace_with pinned_opendir rel_cfg true DSrc []
+                             [NewClient false; Get 0 100; Chdir (DUser 0); Write 60 0; Get 0 100])
+     = [Done; Returned 1 false; Done; Done; Returned 1 false].
+Proof. split; vm_compute; reflexivity. Qed.
 
-(* both repairs together on the relative-path witness and the stale witness: every result is the caller's content *)
+(* with the content-keyed cache on top, relative names and rewritten files: every result is the caller's content *)
 Example C08_repairs_example :
   map (@eout nat nat (Z * option nat))
       (ctrace_with caller_opendir rel_cfg true (DUser 0) []
